@@ -331,6 +331,11 @@ def validate(problem, timed_steps, variant=None) -> Verdict:
     elif problem.timed_effects or problem.timed_goals:
         features.add("timed-dropped")
 
+    if dcs:
+        # structurally ill-formed input (timings outside the action's own span, simulated effects, ...): the time line
+        # itself is not well defined, so not even an "invalid" verdict is demanded
+        return Verdict(DONTCARE, [], dcs, features, [(None, s0)], None, sorted(effs))
+
     eps = getattr(problem, "epsilon", None)
     if eps is not None:
         srt = sorted(instants | {Fraction(0)})
